@@ -203,20 +203,64 @@ def rule_provenance(ctx):
     ctx.ob(R, f0, f0.node, ok, "hash function / PBKDF2 hash name / password bytes are not taken from the mechanism and the configured password", text="hash-config")
 
 
-def rule_escaping(ctx):
-    R = "escaping"
-    ctx.rep.rule(R, "username escaping per RFC 5802 5.1: '=' -> '=3D' applied before ',' -> '=2C' (the other order would re-escape the '=' it just produced)")
-    ff = ctx.fn(f"{SA}.first_message")
+def _escape_sequence(ctx, ff):
+    """Ordered (old, new) replacement pairs applied to the username, and the expression they end in.
+    Understands chained `.replace(a, b).replace(c, d)` and `for a, b in <constant tuple of pairs>: name = name.replace(a, b)`."""
+    from ..constfold import ConstEnv, Unknown
     c = ctx.cfg(ff)
     reps = c.calls(attr="replace")
-    pairs = [(const_value(arg_of(n.ast, 0)), const_value(arg_of(n.ast, 1))) for n in reps]
-    ok = pairs == [("=", "=3D"), (",", "=2C")]
-    if ok:
-        outer = reps[1].ast
-        ok = isinstance(outer.func.value, ast.Call) and outer.func.value is reps[0].ast and unparse(reps[0].ast.func.value) == "self._sasl_plain_username"
-    ctx.ob(R, ff, ff.node, ok, f"username escaping is {pairs}", text="order")
-    qd = local_defs(c, "quoted_username")
-    ctx.ob(R, ff, ff.node, len(qd) == 1 and len(reps) == 2 and qd[0].stmt.value is reps[1].ast, "the escaped name is not what is sent", text="escaped-is-sent")
+    pairs, final = [], None
+    consts = [(const_value(arg_of(n.ast, 0)), const_value(arg_of(n.ast, 1))) for n in reps]
+    if reps and all(isinstance(a, str) and isinstance(b, str) for a, b in consts):
+        # chained / sequential constant replaces, in evaluation order
+        pairs = consts
+        final = reps[-1]
+        root = reps[0].ast.func.value
+        for prev, nxt in zip(reps, reps[1:]):
+            if nxt.ast.func.value is not prev.ast:
+                # sequential statements: x = x.replace(..): accept when the receiver is the variable assigned from prev
+                tgt = prev.stmt.targets[0] if isinstance(prev.stmt, ast.Assign) else None
+                if tgt is None or unparse(nxt.ast.func.value) != unparse(tgt):
+                    return None, None, None
+        return pairs, unparse(root), final
+    if len(reps) == 1:
+        n = reps[0]
+        loops = [a for a, role in n.within if isinstance(a, ast.For) and role == "body"]
+        if loops and isinstance(loops[-1].target, ast.Tuple) and len(loops[-1].target.elts) == 2:
+            lp = loops[-1]
+            names = [unparse(e) for e in lp.target.elts]
+            if [unparse(x) for x in n.ast.args[:2]] == names and isinstance(n.stmt, ast.Assign) and unparse(n.stmt.targets[0]) == unparse(n.ast.func.value):
+                env = ConstEnv(ff.module.tree, ff.cls.name if ff.cls is not None else None)
+                try:
+                    seq = env.eval(lp.iter)
+                except Unknown:
+                    seq = None
+                if isinstance(seq, (tuple, list)) and all(isinstance(p, (tuple, list)) and len(p) == 2 for p in seq):
+                    var = unparse(n.ast.func.value)
+                    ds = local_defs(c, var)
+                    root = unparse(def_value(ds[0])) if ds and def_value(ds[0]) is not None else var
+                    return [tuple(p) for p in seq], root, n
+    return None, None, None
+
+
+def rule_escaping(ctx):
+    R = "escaping"
+    ctx.rep.rule(R, "username escaping per RFC 5802 5.1: exactly '=' -> '=3D' and ',' -> '=2C', with '=' escaped first (the other order would "
+                    "re-escape the '=' it just produced), applied to the configured user name, and the escaped name is the one sent")
+    ff = ctx.fn(f"{SA}.first_message")
+    c = ctx.cfg(ff)
+    pairs, root, final = _escape_sequence(ctx, ff)
+    ctx.anchor(pairs is not None, "username escaping in first_message (chained replace or a loop over constant pairs)")
+    ok = sorted(pairs) == sorted([("=", "=3D"), (",", "=2C")]) and pairs.index(("=", "=3D")) < pairs.index((",", "=2C"))
+    ctx.ob(R, ff, ff.node, ok, f"username escaping is {pairs}: '=' must become '=3D' before ',' becomes '=2C'", text="order")
+    ctx.ob(R, ff, ff.node, root == "self._sasl_plain_username", f"escaping is applied to `{root}`, not to the configured user name", text="escapes-username")
+    # the escaped value reaches the `n=` field of client-first-message-bare
+    if isinstance(final.stmt, ast.Assign):
+        var = unparse(final.stmt.targets[0])
+    else:
+        var = None
+    src = unparse(ff.node)
+    ctx.ob(R, ff, ff.node, var is not None and ("n={" + var + "}") in src.replace("!s", "") or (var is not None and f"'n=' + {var}" in src), "the escaped name is not what is sent in the n= field", text="escaped-is-sent")
 
 
 def run(ctx):
